@@ -15,7 +15,8 @@ P0 = 16384
 NAME = world.ROOT_NAME
 
 PAYLOADS = {
-    "dir": [(("a",), 20000), (("d", "x"), P0 + 1), (("d", "y"), 5),
+    # `d` holds two names that differ only in case; `D` vs `d` likewise
+    "dir": [(("a",), 20000), (("d", "x"), P0 + 1), (("d", "X"), 5),
             (("D",), 2 * P0)],
     "file": [((), 2 * P0 + 7)],
 }
@@ -31,7 +32,7 @@ AXES = {
     "announce": [None, ["http://t1/a"], ["http://t1/a", "http://t2/a"]],
     "url_list": [None, ["http://w1/"], ["http://w1/", "http://w2/"]],
     "httpseeds": [None, ["http://h1/"], ["http://h1/", "http://h2/"]],
-    "outfile": ["explicit", "dir/", "default"],
+    "outfile": ["explicit", "dir/", "default", "inside-payload"],
     "progress": [0, 1, 2, "cli", "cli-q"],
     "clock": [1, 10 ** 9, 2 ** 31 + 5],
     "width": [80, 20],
@@ -88,9 +89,10 @@ class InfoHashCheck:
 
     def __init__(self):
         self.assumptions = [
-            "payloads: one directory (3 entries + a subdirectory with 2, so "
-            "3! x 2! orders per traversal) and one single file; all six "
-            "creator configurations",
+            "payloads: one directory (3 entries + a subdirectory with 2 whose "
+            "names differ only in case, so 3! x 2! orders per traversal) and "
+            "one single file; all six creator configurations; output "
+            "locations include a file inside the payload directory",
             "configuration axes (path spelling, cwd, location, trackers, web "
             "seeds, http seeds, outfile form, progress / CLI / -q, clock, "
             "terminal width) explored with at most 2 (quick) / 3 (thorough) "
@@ -156,6 +158,11 @@ class InfoHashCheck:
         elif vals["outfile"] == "dir/":
             outarg = outdir + os.sep
             expect = None
+        elif vals["outfile"] == "inside-payload":
+            if pk != "dir":
+                return {"skip": "no inside for a single file", "vals": vals}
+            outarg = os.path.join(L, NAME, "d", "out.torrent")
+            expect = outarg
         else:
             outarg = None
             expect = None
